@@ -604,6 +604,11 @@ theorem scanAct_entries (o : Oracle) (k : Nat) (globalDry : Bool) (cfg : GroupCf
     obtain ⟨hd, hs⟩ := scaleUp_entries o _ _ cfg st _ nowReal h.new _ delta e he
     exact .up hd (ScaleUpEntry_congr hFg.2 hs)
   split at he
+  · simp only [List.mem_append] at he
+    rcases he with he | he
+    · exact hmj e he
+    · exact hFe e he
+  split at he
   · split at he
     · simp only [List.mem_append] at he
       rcases he with (he | he) | he
